@@ -98,6 +98,11 @@ fn plan(p: &mut Plan<'_>) {
             p.part(bufsim::send::SendBufSim, 300_000, 30_000_000, "seeded histories of write/extend/pick_up/ack/loss/resend_flighting with swarm-drawn op weights, then a draining packetiser; ack and loss ranges are picked ranges, sub-ranges, spans or arbitrary ranges below sent(); non-trivial = at least one retransmission was picked; distinct = hash of the op/result history");
             p.assumptions = vec!["ack/loss ranges never cover never-sent bytes (API precondition, debug_assert in BufMap)", "predicate allowance >= 1 (all in-tree callers)", "hook H2 (verif_colours) is a faithful read-only dump"];
         }
+        "C07" | "C10" => {
+            let clauses = if p.ctx.prop == "C07" { journalsim::C07_CLAUSES } else { journalsim::C10_CLAUSES };
+            p.part(journalsim::JournalSim { clauses }, 600_000, 60_000_000, "two-endpoint journal simulation: packet assemblies (built, trivial, abandoned) through drop/dup/reorder channels, receiver ACK generation at drawn capacities, acks / loss reports / fast retransmit / expiry on the virtual clock; non-trivial = some fault fired and packets were received and acknowledged; distinct = hash of the event history");
+            p.assumptions = vec!["frames are u32 tags", "abandonment only before anything is recorded (the only one reachable through PacketWriter)", "gen_ack largest is a received, still tracked packet number", "a packet declared lost whose expiry passed may be forgotten by the journal"];
+        }
         other => die(&format!("no check for property {other}")),
     }
 }
